@@ -31,6 +31,7 @@ class ScriptedRng:
         self.r = random.Random(seed); self.lines = []; self.specials = list(specials); self.pspecial = pspecial
         self.nspecial = 0; self.recent = []; self.hook = None
         self.values = []        # every value handed out, in order (replayed by the fresh twin of C10)
+        self.sticky = 0.0; self.last_int = None
 
     def random(self):
         x = self._random(); self.recent.append(x); return x
@@ -50,6 +51,9 @@ class ScriptedRng:
         if high is None:
             low, high = 0, low
         x = self.r.randrange(low, high)
+        # 'sticky' streams repeat the previous draw for long stretches: rejection loops in the code under test then go round many times
+        if self.sticky and self.last_int is not None and self.last_int[0] == high and self.r.random() < self.sticky: x = self.last_int[1]
+        self.last_int = (high, x)
         assert low == 0
         self.lines.append(f"RI {high} {x}"); self.values.append(x); return x
 
@@ -531,6 +535,7 @@ def run_case(case):
     returns (input lines, expected lines, info)"""
     sr = ScriptedRng(case['seed'], case.get('specials', ()), case.get('pspecial', 0.0))
     vrepo.patch_rng(sr); CURRENT['sr'] = sr
+    sr.sticky = case.get('sticky', 0.0)
     top = case['build']()
     top.setMaximumTime(case['maxT'])
     Dyn = StochasticDynamics if case['dyn'] == 'sto' else SynchronousDynamics
@@ -847,7 +852,7 @@ def run_case(case):
         return orig_results()
     if case.get('history'):
         top.setUp = setUp_; top.results = results_
-    protos = []
+    protos = []; handed = []
     for ep in case.get('history', ()):
         # an earlier run on the same experiment object: other parameters, perhaps cut short, perhaps failing; then forget what was recorded
         st['inject'] = ep.get('inject'); st['nev'] = 0
@@ -855,7 +860,8 @@ def run_case(case):
         pp = dict(case['params']); pp.update(ep.get('params', {}))
         gen0._edges = mkgen(case, [tuple(e) for e in ep['edges']])._edges if ep.get('edges') is not None else mkgen(case)._edges     # (same generator object throughout)
         try:
-            d.set(pp).run(fatal=True)
+            rc0 = d.set(pp).run(fatal=True)
+            handed.append((rc0, snapshot(rc0.get('results', {}))))
             info['hist_done'] = info.get('hist_done', 0) + 1
         except Injected:
             info['hist_injected'] = info.get('hist_injected', 0) + 1
@@ -912,6 +918,9 @@ def run_case(case):
         if info.get('tmax') is not None and info['tmax'] > md[Dynamics.TIME]:
             info['oracle'].append(('clock', f"an event was delivered to the tap at {info['tmax']}, after the reported end time {md[Dynamics.TIME]}"))
         if st.get('fresh_check'):
+            for (rc0, snap0) in handed:
+                if snapshot(rc0.get('results', {})) != snap0:
+                    info['oracle'].append(('fresh', "the results returned by an earlier run were changed by a later run on the same experiment")); break
             for proto in protos:
                 want = mkgen(case)._generate({})
                 if list(proto.nodes(data=True)) != list(want.nodes(data=True)) or [(a, b, dict(dd)) for a, b, dd in proto.edges(data=True)] != [(a, b, dict(dd)) for a, b, dd in want.edges(data=True)]:
